@@ -137,6 +137,10 @@ func (st *Store) SetBalance(addr keys.Address, coin Coin) error {
 }
 
 func (st *Store) AddToAddress(addr keys.Address, coin Coin) error {
+	if coin.Amount == nil {
+		// e.g. made from a currency name that is not registered
+		return ErrInvalidCoin
+	}
 	key := storage.StoreKey(addr.String() + storage.DB_PREFIX + coin.Currency.Name)
 
 	amt, err := st.get(key)
@@ -153,6 +157,10 @@ func (st *Store) AddToAddress(addr keys.Address, coin Coin) error {
 }
 
 func (st *Store) MinusFromAddress(addr keys.Address, coin Coin) error {
+	if coin.Amount == nil {
+		// e.g. made from a currency name that is not registered
+		return ErrInvalidCoin
+	}
 	key := storage.StoreKey(addr.String() + storage.DB_PREFIX + coin.Currency.Name)
 
 	amt, err := st.get(key)
@@ -172,6 +180,10 @@ func (st *Store) MinusFromAddress(addr keys.Address, coin Coin) error {
 }
 
 func (st *Store) CheckBalanceFromAddress(addr keys.Address, coin Coin) error {
+	if coin.Amount == nil {
+		// e.g. made from a currency name that is not registered
+		return ErrInvalidCoin
+	}
 	key := storage.StoreKey(addr.String() + storage.DB_PREFIX + coin.Currency.Name)
 
 	amt, err := st.get(key)
